@@ -11,7 +11,7 @@ namespace CaddyModel.C07
 def Justified (fs : FS) (c : Cfg) (_path : Bytes) : Outcome → Prop
   | .file p id => UnderS c.rootC p ∧ c.hidden p = false ∧ fs p = .file id
   | .listing p ns => UnderS c.rootC p ∧ c.hidden p = false ∧ ∃ es, fs p = .dir es ∧ ns = listingNames c p es
-  | .redirect => True
+  | .redirect _ => True
   | .notFound => c.passThru = false
   | .passThru => c.passThru = true
   | .forbidden => ∃ n, fs n = .perm
@@ -383,5 +383,71 @@ theorem serve_trace (fs : FS) (c : Cfg) (path orig : Bytes) (hfs : fs [] = .miss
           split at hn <;> (rename_i hm; rw [hm]; exact hn)
         right; right; right
         exact mapDirOpenError_trace fs _ _ n hm
+
+/-! ### which redirects there are -/
+
+/-- the two canonical redirects: add a trailing slash, or remove the one that is there -/
+def RedirShape (c : Cfg) (path orig : Bytes) (x : Option Bytes) : Prop :=
+  x = locationOf c path orig (orig ++ [slash]) ∨
+  (x = locationOf c path orig orig.dropLast ∧ endsWithSlash orig = true)
+
+theorem notFoundOut_ne_redirect (c : Cfg) (x : Option Bytes) : notFoundOut c ≠ .redirect x := by
+  unfold notFoundOut; split <;> simp
+
+theorem serveContent_ne_redirect {fs : FS} {c : Cfg} {f : Bytes} {id : Nat} (h : fs f = .file id) (x : Option Bytes) :
+    (serveContent fs c f).1 ≠ .redirect x := by
+  unfold serveContent
+  split
+  · simp
+  · rw [openAndServe_of_file h]; simp [appendTrace]
+
+theorem serveNode_redirect {fs : FS} {c : Cfg} {f : Bytes} {info : Node} (imp : Bool) (path orig : Bytes)
+    (h : fs f = info) (hk : (∃ id, info = .file id) ∨ (∃ es, info = .dir es)) (x : Option Bytes)
+    (hx : (serveNode fs c f info imp path orig).1 = .redirect x) : RedirShape c path orig x := by
+  rcases hk with ⟨id, rfl⟩ | ⟨es, rfl⟩
+  · simp only [serveNode, serveFile] at hx
+    split at hx
+    · exact absurd hx (notFoundOut_ne_redirect c x)
+    split at hx
+    · simp at hx; exact Or.inl hx.symm
+    split at hx
+    · rename_i hc
+      simp at hx
+      simp at hc
+      exact Or.inr ⟨hx.symm, hc.2⟩
+    · exact absurd hx (serveContent_ne_redirect h x)
+  · simp only [serveNode, serveBrowse] at hx
+    split at hx
+    · split at hx
+      · simp at hx; exact Or.inl hx.symm
+      · simp at hx
+    · exact absurd hx (notFoundOut_ne_redirect c x)
+
+theorem serve_redirect (fs : FS) (c : Cfg) (path orig : Bytes) (x : Option Bytes)
+    (hx : (serve fs c path orig).1 = .redirect x) : RedirShape c path orig x := by
+  unfold serve at hx
+  rw [withTrace_fst] at hx
+  have key : ∀ info, fs (requestFile c path) = info → ((∃ id, info = .file id) ∨ (∃ es, info = .dir es)) →
+      (serveStatOk fs c (requestFile c path) info path orig).1 = .redirect x → RedirShape c path orig x := by
+    intro info hi hk hm
+    unfold serveStatOk at hm
+    split at hm
+    · split at hm
+      · rename_i ip inode t hfi
+        have hfi' : (findIndex fs c (requestFile c path) c.index).1 = some (ip, inode) := by rw [hfi]
+        obtain ⟨h1, h2, _⟩ := findIndex_spec fs c _ c.index ip inode hfi'
+        rw [appendTrace_fst] at hm
+        exact serveNode_redirect true path orig h1 h2 x hm
+      · rw [appendTrace_fst] at hm
+        exact serveNode_redirect false path orig hi hk x hm
+    · exact serveNode_redirect false path orig hi hk x hm
+  split at hx
+  · rename_i id hf; exact key _ hf (Or.inl ⟨id, rfl⟩) hx
+  · rename_i es hf; exact key _ hf (Or.inr ⟨es, rfl⟩) hx
+  · split at hx
+    · exact absurd hx (notFoundOut_ne_redirect c x)
+    · exact absurd hx (notFoundOut_ne_redirect c x)
+    · simp at hx
+    · simp at hx
 
 end CaddyModel.C07
